@@ -8,7 +8,9 @@ import NeumannModel.Ckpt.Model
     gnode label | gedge a b | gdeln i | gdele i
     vput k v1,v2,.. | vdel k | vbuild
     kput cls k x e|- | kdel cls k            (cls 0 plain key, 1 `_cache:`, 2 `emb:` with `_embedding`)
-    ckpt ts ord|-  | rollback id | cklist
+    ckpt ts ord|- name | rollback x ord|- | ckdel x ord|- | cklist | cktop n ord|- | resolve x ord|-
+                                             (x: an id or a name, one code space: code < 1000 = the id
+                                              string of checkpoint number `code`, else a proper name)
     snap | restore i                         (bare snapshot_bytes / restore_from_bytes, bytes kept outside)
     obs ints|- labels|- q1;q2;..|-           (the full canonical observable image)
     retain max ord|- ids|- tss|-             (pure: ids `RetentionManager::enforce` keeps)
@@ -93,9 +95,17 @@ def ckptStep1 (d : Db) (line : String) : Db × String :=
       | some c, some k, some x, some e => doOp (.kput c k x e) | _, _, _, _ => bad
   | ["kdel", c, k] => match c.toNat?, k.toNat? with
       | some c, some k => doOp (.kdel c k) | _, _ => bad
-  | ["ckpt", ts, ord] => match ts.toNat?, parseNats ord with
-      | some ts, some ord => doOp (.ckpt ts ord) | _, _ => bad
-  | ["rollback", i] => match i.toNat? with | some i => doOp (.rollback i) | none => bad
+  | ["ckpt", ts, ord, nm] => match ts.toNat?, parseNats ord, nm.toNat? with
+      | some ts, some ord, some nm => doOp (.ckpt ts ord nm) | _, _, _ => bad
+  | ["rollback", x, ord] => match x.toNat?, parseNats ord with
+      | some x, some ord => doOp (.rollback x ord) | _, _ => bad
+  | ["ckdel", x, ord] => match x.toNat?, parseNats ord with
+      | some x, some ord => doOp (.ckdel x ord) | _, _ => bad
+  | ["cktop", n, ord] => match n.toNat?, parseNats ord with
+      | some n, some ord => (d, showNats ((qCkptsTop d ord n).map (·.1))) | _, _ => bad
+  | ["resolve", x, ord] => match x.toNat?, parseNats ord with
+      | some x, some ord => (d, match resolve d ord x with | some i => s!"id {i}" | none => "none")
+      | _, _ => bad
   | ["cklist"] => (d, showNats (qCkpts d))
   | ["obs", is, ls, qs] => match parseInts is, parseNats ls, parseVecs qs with
       | some is, some ls, some qs => (d, showObs (obs ⟨is, ls, qs⟩ d))
